@@ -624,6 +624,10 @@ class AsyncFIXConnection:
             # disconnected while Logon() response was being sent
             return
 
+        # peer is alive now, the watchdog counts silence from here also when this
+        #   Logon() is not processed yet because of MsgSeqNum gap
+        self._message_last_time = time.time()
+
         if msg_seq_num == self._session.next_num_in:
             await self._state_set(ConnectionState.ACTIVE)
         else:
